@@ -95,10 +95,17 @@ def generate(ctx):
     gz = tape.boolean("gzip", 1, 3)
     # where the table comes from: the public constructor, or an eager read of a canonical file (then it carries the
     # source file's header as context, which must be written exactly once)
-    source = tape.weighted([(3, "memory"), (1, "eager_read"), (1, "lazy_read"), (1, "lazy_select"), (1, "eager_select")],
-                           "source") if rows else "memory"
+    source = tape.weighted([(3, "memory"), (1, "eager_read"), (1, "lazy_read"), (1, "lazy_select"), (1, "eager_select"),
+                            (1, "lazy_permuted")], "source") if rows else "memory"
     sc = {"format": fmt.name, "rows": rows, "ops": ops, "gzip": gz, "path": f"/sim/o{fmt.suffix}{'.gz' if gz else ''}",
           "eio_nth": 0, "second": None, "interleaving": [], "source": source}
+    if source == "lazy_permuted":
+        # the file holds the rows in another order; the table is file_table[perm] (an integer list that is not ascending)
+        pool = list(range(len(rows)))
+        perm = []
+        while pool:
+            perm.append(pool.pop(tape.draw(len(pool), "perm.pick")))
+        sc["select"] = {"perm": perm}
     if source in ("lazy_select", "eager_select"):
         # the table is what is left of a larger file: decoy records in front of some rows are de-selected (integer list
         # for the first part, boolean mask for the second) and the two selections concatenated
@@ -295,6 +302,12 @@ def execute(ctx, sc):
         else:
             src_style = {"crlf": False, "final_newline": True, "header": bool(fmt.header), "wrap": 60}
             file_rows, keep = rows, None
+            perm = None
+            if source == "lazy_permuted":
+                perm = list(sc["select"]["perm"])
+                file_rows = [None] * len(rows)
+                for i, r in enumerate(rows):
+                    file_rows[perm[i]] = r
             if source.endswith("_select"):
                 file_rows, keep = [], []
                 for i, r in enumerate(rows):
@@ -314,6 +327,8 @@ def execute(ctx, sc):
                     t = r.read()
                 finally:
                     r.close()
+                if perm is not None:
+                    return t[perm]
                 if keep is None:
                     return t
                 a = sc["select"]["split"]
